@@ -274,8 +274,10 @@ impl VectorizedHashTable {
         let mut total_rows = 0usize;
 
         for batch in batches {
-            let key_arrays: Result<Vec<ArrayRef>> =
-                key_exprs.iter().map(|e| evaluate_expr(batch, e)).collect();
+            let key_arrays: Result<Vec<ArrayRef>> = key_exprs
+                .iter()
+                .map(|e| evaluate_key_expr(batch, e))
+                .collect();
             let key_arrays = key_arrays?;
             // Verify we can vectorize these types
             if !key_arrays.is_empty() && !vectorized_hash::can_vectorize_arrays(&key_arrays) {
@@ -510,6 +512,20 @@ impl VectorizedHashTable {
                 }
                 return matches;
             }
+            // `heads` is indexed by key VALUE in this mode, never by hash, so
+            // a probe key that is not Int64 must not reach the hash lookups
+            // below (out-of-bounds slot, or a silently wrong chain). An Int32
+            // probe key (`ON i64_col = i32_col`) is widened and re-probed; any
+            // other type cannot equal an Int64 build key (the answer
+            // `compare_row` gives in hash mode).
+            if probe_key_arrays[0].data_type() == &arrow::datatypes::DataType::Int32 {
+                if let Ok(widened) =
+                    compute::cast(&probe_key_arrays[0], &arrow::datatypes::DataType::Int64)
+                {
+                    return self.probe_batch(&[widened], num_rows);
+                }
+            }
+            return matches;
         }
 
         let hashes = vectorized_hash::hash_arrays(probe_key_arrays, num_rows);
@@ -1366,6 +1382,7 @@ impl PhysicalOperator for HashJoinExec {
                         &unmatched,
                         &self.schema,
                         swapped,
+                        probe_batches.first().map(|b| b.schema()),
                     )?);
                 }
             }
@@ -1511,8 +1528,10 @@ fn build_hash_table_sequential(
     let mut table: HashMap<JoinKey, Vec<HashEntry>> = HashMap::new();
 
     for (batch_idx, batch) in batches.iter().enumerate() {
-        let key_arrays: Result<Vec<ArrayRef>> =
-            key_exprs.iter().map(|e| evaluate_expr(batch, e)).collect();
+        let key_arrays: Result<Vec<ArrayRef>> = key_exprs
+            .iter()
+            .map(|e| evaluate_key_expr(batch, e))
+            .collect();
         let key_arrays = key_arrays?;
 
         for row_idx in 0..batch.num_rows() {
@@ -1545,8 +1564,10 @@ fn build_hash_table_parallel(
         .map(|(batch_idx, batch)| {
             let mut partial: HashMap<JoinKey, Vec<HashEntry>> = HashMap::new();
 
-            let key_arrays: Result<Vec<ArrayRef>> =
-                key_exprs.iter().map(|e| evaluate_expr(batch, e)).collect();
+            let key_arrays: Result<Vec<ArrayRef>> = key_exprs
+                .iter()
+                .map(|e| evaluate_key_expr(batch, e))
+                .collect();
             let key_arrays = key_arrays?;
 
             for row_idx in 0..batch.num_rows() {
@@ -1641,6 +1662,24 @@ fn build_i64_hash_table(
         }
     }
     Some(table)
+}
+
+/// Evaluate a join key expression to a plain (non-dictionary) array.
+///
+/// A string column gathered from an upstream join's small build side arrives
+/// `Dictionary(Int32, Utf8)`-encoded (see `dictionary_gather`). The vectorized
+/// hash/compare kernels only know plain arrays: an encoded PROBE key hashed to
+/// the seed and compared unequal to everything, so a join keyed on such a
+/// column silently matched no rows. Decoding here keeps build and probe keys
+/// in one representation on every path.
+fn evaluate_key_expr(batch: &RecordBatch, expr: &Expr) -> Result<ArrayRef> {
+    let arr = evaluate_expr(batch, expr)?;
+    match arr.data_type() {
+        arrow::datatypes::DataType::Dictionary(_, value_type) => {
+            compute::cast(&arr, value_type).map_err(Into::into)
+        }
+        _ => Ok(arr),
+    }
 }
 
 fn extract_join_key(arrays: &[ArrayRef], row: usize) -> JoinKey {
@@ -2248,7 +2287,7 @@ fn probe_semi_anti_parallel(
                 if i64_values.is_none() || (i64_ht_ref.is_none() && use_vht.is_none()) {
                     let arrays: Result<Vec<ArrayRef>> = probe_key_exprs
                         .iter()
-                        .map(|e| evaluate_expr(probe_batch, e))
+                        .map(|e| evaluate_key_expr(probe_batch, e))
                         .collect();
                     Some(arrays?)
                 } else {
@@ -2578,7 +2617,7 @@ fn probe_vectorized(
                     let t = clk(prof);
                     let probe_key_arrays: Result<Vec<ArrayRef>> = probe_key_exprs
                         .iter()
-                        .map(|e| evaluate_expr(probe_batch, e))
+                        .map(|e| evaluate_key_expr(probe_batch, e))
                         .collect();
                     let probe_key_arrays = probe_key_arrays?;
                     lap(t, &t_key);
@@ -2709,7 +2748,7 @@ fn probe_vectorized(
                 .map(|probe_batch| {
                     let probe_key_arrays: Result<Vec<ArrayRef>> = probe_key_exprs
                         .iter()
-                        .map(|e| evaluate_expr(probe_batch, e))
+                        .map(|e| evaluate_key_expr(probe_batch, e))
                         .collect();
                     let probe_key_arrays = probe_key_arrays?;
                     let n_rows = probe_batch.num_rows();
@@ -2790,7 +2829,7 @@ fn probe_vectorized(
     for probe_batch in probe_batches {
         let probe_key_arrays: Result<Vec<ArrayRef>> = probe_key_exprs
             .iter()
-            .map(|e| evaluate_expr(probe_batch, e))
+            .map(|e| evaluate_key_expr(probe_batch, e))
             .collect();
         let probe_key_arrays = probe_key_arrays?;
 
@@ -3268,7 +3307,7 @@ fn probe_hash_table(
     for probe_batch in probe_batches {
         let probe_key_arrays: Result<Vec<ArrayRef>> = probe_key_exprs
             .iter()
-            .map(|e| evaluate_expr(probe_batch, e))
+            .map(|e| evaluate_key_expr(probe_batch, e))
             .collect();
         let probe_key_arrays = probe_key_arrays?;
 
@@ -3478,6 +3517,7 @@ fn probe_hash_table(
                     &unmatched_build,
                     output_schema,
                     swapped,
+                    probe_batches.first().map(|b| b.schema()),
                 )?;
                 results.push(batch);
             }
@@ -3491,6 +3531,7 @@ fn probe_hash_table(
                     &unmatched_build,
                     output_schema,
                     swapped,
+                    probe_batches.first().map(|b| b.schema()),
                 )?;
                 results.push(batch);
             }
@@ -3597,7 +3638,22 @@ fn create_joined_batch(
     // across every column — gather_column was rebuilding the u32 index vec
     // per column.
     let build_columns: Result<Vec<ArrayRef>> = if build_batches.is_empty() {
-        Ok(vec![])
+        // A build side that produced no batches still owns its share of the
+        // output columns. The only rows that reach here are the unmatched
+        // probe rows of an outer join, NULL-extended on the build side.
+        // Returning no build columns shifted the probe columns into the build
+        // side's output positions (and silently dropped the rest).
+        let probe_cols = probe_batch.num_columns();
+        let build_cols = output_schema.fields().len().saturating_sub(probe_cols);
+        let first = if swapped { probe_cols } else { 0 };
+        Ok((first..first + build_cols)
+            .map(|i| {
+                arrow::array::new_null_array(
+                    output_schema.field(i).data_type(),
+                    build_indices.len(),
+                )
+            })
+            .collect())
     } else if let Some((store, row_offsets)) = row_store {
         if build_indices.iter().any(|&(b, _)| b == usize::MAX) {
             // Null sentinels (defensive: not produced on Inner paths) —
@@ -3643,11 +3699,7 @@ fn create_joined_batch(
             .iter()
             .map(|col| {
                 if dict_encode && col.data_type() == &arrow::datatypes::DataType::Utf8 {
-                    let keys: arrow::array::Int32Array =
-                        take_arr.iter().map(|v| v.map(|u| u as i32)).collect();
-                    arrow::array::DictionaryArray::try_new(keys, col.clone())
-                        .map(|d| std::sync::Arc::new(d) as ArrayRef)
-                        .map_err(Into::into)
+                    dictionary_gather(col, &take_arr)
                 } else {
                     compute::take(col.as_ref(), &take_arr, None).map_err(Into::into)
                 }
@@ -3686,6 +3738,28 @@ fn create_joined_batch(
     };
 
     batch_with_actual_types(output_schema, columns)
+}
+
+/// Dictionary-encode a small-build string gather: the take indices become the
+/// dictionary keys and the build column itself the values array.
+///
+/// A NULL build value must surface as a NULL *key*: `Array::is_null` on a
+/// `DictionaryArray` consults the key validity only, so a valid key pointing
+/// at a null value slot reads as the non-null string `""` to every consumer
+/// that checks nulls that way (join keys matched NULL = '', GROUP BY and
+/// DISTINCT merged NULL with '', COUNT(col) counted it).
+fn dictionary_gather(col: &ArrayRef, take_arr: &UInt32Array) -> Result<ArrayRef> {
+    let keys: arrow::array::Int32Array = if col.null_count() == 0 {
+        take_arr.iter().map(|v| v.map(|u| u as i32)).collect()
+    } else {
+        take_arr
+            .iter()
+            .map(|v| v.filter(|&u| col.is_valid(u as usize)).map(|u| u as i32))
+            .collect()
+    };
+    arrow::array::DictionaryArray::try_new(keys, col.clone())
+        .map(|d| std::sync::Arc::new(d) as ArrayRef)
+        .map_err(Into::into)
 }
 
 /// Build a RecordBatch, adjusting declared field types to the columns'
@@ -3770,11 +3844,7 @@ fn create_joined_batch_u32(
             .iter()
             .map(|col| {
                 if dict_encode && col.data_type() == &arrow::datatypes::DataType::Utf8 {
-                    let keys: arrow::array::Int32Array =
-                        take_arr.iter().map(|v| v.map(|u| u as i32)).collect();
-                    arrow::array::DictionaryArray::try_new(keys, col.clone())
-                        .map(|d| std::sync::Arc::new(d) as ArrayRef)
-                        .map_err(Into::into)
+                    dictionary_gather(col, &take_arr)
                 } else {
                     compute::take(col.as_ref(), &take_arr, None).map_err(Into::into)
                 }
@@ -3874,6 +3944,7 @@ fn create_build_only_batch(
     indices: &[(usize, usize)],
     output_schema: &SchemaRef,
     swapped: bool,
+    probe_schema: Option<SchemaRef>,
 ) -> Result<RecordBatch> {
     if build_batches.is_empty() {
         return Ok(RecordBatch::new_empty(output_schema.clone()));
@@ -3905,11 +3976,7 @@ fn create_build_only_batch(
             .iter()
             .map(|col| {
                 if dict_encode && col.data_type() == &arrow::datatypes::DataType::Utf8 {
-                    let keys: arrow::array::Int32Array =
-                        take_arr.iter().map(|v| v.map(|u| u as i32)).collect();
-                    arrow::array::DictionaryArray::try_new(keys, col.clone())
-                        .map(|d| std::sync::Arc::new(d) as ArrayRef)
-                        .map_err(Into::into)
+                    dictionary_gather(col, &take_arr)
                 } else {
                     compute::take(col.as_ref(), &take_arr, None).map_err(Into::into)
                 }
@@ -3933,7 +4000,16 @@ fn create_build_only_batch(
             } else {
                 build_batches[0].num_columns() + i
             };
-            let dt = output_schema.field(field_idx).data_type();
+            // Type the NULL columns like the probe side's ACTUAL batches: a
+            // string column arrives dictionary-encoded from an upstream join's
+            // small-build gather while the declared schema says Utf8, and the
+            // matched batches of this join carry the actual type. Mixing the
+            // two made the next join's build-side concat fail ("concatenate
+            // arrays of different data types (Dictionary(Int32, Utf8), Utf8)").
+            let dt = match &probe_schema {
+                Some(ps) if ps.fields().len() == probe_num_cols => ps.field(i).data_type(),
+                _ => output_schema.field(field_idx).data_type(),
+            };
             arrow::array::new_null_array(dt, num_rows)
         })
         .collect();
